@@ -381,8 +381,8 @@ class Program:
         if q in self.functions:
             return [q]
         if q in self.classes:
-            init = self.lookup_method(self.classes[q], "__init__")
-            return [init.qualname] if init else [q]
+            init = self.lookup_method(self.classes[q], "__init__") or self.lookup_method(self.classes[q], "__post_init__")
+            return [init.qualname] if init else []
         if "." in q:
             head, last = q.rsplit(".", 1)
             if head in self.classes:
